@@ -234,12 +234,10 @@ class Output(BaseOutput):
         self.nc.variables["time"][self.local_record_count] = self.timer.nctime()
 
         if self.layout == "dense":
-            # Fill out state.alive, False for unborn particles
-            has_value = np.full(len(state), False)
-            has_value[: len(state)] = state.alive
+            # Living particles are stored at index pid
+            pid = state.pid[state.alive]
             for var in self.instance_variables:
-                # values = getattr(state, var)
-                self.nc.variables[var][self.local_record_count, has_value] = getattr(
+                self.nc.variables[var][self.local_record_count, pid] = getattr(
                     state, var
                 )[state.alive]
         elif self.layout == "sparse":
@@ -254,8 +252,8 @@ class Output(BaseOutput):
         if self.lonlat:
             lon, lat = self.xy2ll(state.X, state.Y)
             if self.layout == "dense":
-                self.nc.variables["lon"][self.local_record_count, :] = lon
-                self.nc.variables["lat"][self.local_record_count, :] = lat
+                self.nc.variables["lon"][self.local_record_count, pid] = lon[state.alive]
+                self.nc.variables["lat"][self.local_record_count, pid] = lat[state.alive]
             elif self.layout == "sparse":
                 self.nc.variables["lon"][start:end] = lon
                 self.nc.variables["lat"][start:end] = lat
